@@ -3,8 +3,15 @@
 (* Trace validation for C18: accepts a log of real executions iff every    *)
 (* observed result is allowed by the CONTRACT layer of ResourceEnv.tla.    *)
 (* One ndjson line per call, written by harness/c18_env.cc:                *)
-(*   Cfg(toks, svc, pool)    a fresh process with this environment; pool = *)
-(*                           projections of GetDefault(), GetEmpty()       *)
+(*   Cfg(toks, svc, pool, envurl)  a fresh process with this environment;  *)
+(*                           pool = projections of GetDefault() and        *)
+(*                           GetEmpty() AS OBSERVED in that process,       *)
+(*                           envurl = schema URL of the resource the SDK's *)
+(*                           environment detector returns there.  These    *)
+(*                           are the givens S of ResourceEnv.tla: taken as *)
+(*                           found (only the presence of telemetry.sdk.    *)
+(*                           language/name/version is pinned); the Merge / *)
+(*                           Create rules are applied to them.             *)
 (*   New(attrs, url, obs)    raw resource   Create(user, url, obs, threw)  *)
 (*   Merge(a, b, obs, obsA, obsB)   pool[a].Merge(pool[b]); operands re-   *)
 (*                           projected after the call                      *)
@@ -32,7 +39,7 @@ Idx(i) == i \in 1..Len(pool)
 
 TInit == /\ TLCSet(1, 0)
          /\ l = 1 /\ nexec = 0
-         /\ env = NoEnv /\ envalt = <<>> /\ pool = <<>> /\ provs = <<>> /\ errno = "clean" /\ dead = TRUE
+         /\ env = NoEnv /\ sdk = NoSdk /\ envalt = <<>> /\ pool = <<>> /\ provs = <<>> /\ errno = "clean" /\ dead = TRUE
          /\ last = [op |-> "none"] /\ devUsed = {} /\ nsteps = 0 /\ hist = <<>>
 
 Keep == UNCHANGED <<last, nsteps, hist, nexec>>
@@ -40,7 +47,10 @@ Keep == UNCHANGED <<last, nsteps, hist, nexec>>
 TCfg == /\ Is("Cfg")
         /\ env' = [toks |-> Ev.toks, svc |-> Ev.svc]
         /\ envalt' \in EnvAlts(Ev.toks, Ev.svc)            \* the reading is resolved by what Create shows later
-        /\ Ev.pool = <<DefaultRes, EmptyRes>>              \* the SDK defaults; the empty resource
+        /\ Len(Ev.pool) = 2                               \* GetDefault(), GetEmpty() as observed
+        /\ DefaultShapeOK(Ev.pool[1])                      \* pinned: the defaults carry telemetry.sdk.language/name/version
+        /\ sdk' = [dflt |-> Ev.pool[1],                     \* not pinned: their values, further keys, the schema URLs
+                   envurl |-> IF "envurl" \in DOMAIN Ev THEN Ev.envurl ELSE ""]   \* (logs stored before round 4 lack it)
         /\ pool' = Ev.pool /\ provs' = <<>> /\ errno' = "clean" /\ dead' = FALSE
         /\ nexec' = nexec + 1
         /\ UNCHANGED <<last, nsteps, hist, devUsed>>
@@ -48,18 +58,18 @@ TCfg == /\ Is("Cfg")
 TNew == /\ Is("New") /\ ~dead
         /\ Ev.obs = R(Ev.attrs, Ev.url)
         /\ pool' = Append(pool, Ev.obs)
-        /\ UNCHANGED <<env, envalt, provs, errno, dead, devUsed>> /\ Keep
+        /\ UNCHANGED <<env, sdk, envalt, provs, errno, dead, devUsed>> /\ Keep
 
 TCreate == /\ Is("Create") /\ ~dead
            /\ \/ /\ Ev.threw = ""
-                 /\ CreateOK(envalt, Ev.user, Ev.url, Ev.obs)
+                 /\ CreateOK(sdk, envalt, Ev.user, Ev.url, Ev.obs)
                  /\ pool' = Append(pool, Ev.obs)           \* learns the fallback service.name
                  /\ UNCHANGED <<dead, devUsed>>
               \/ /\ Ev.threw # ""                          \* Create threw: only the named deviation explains it
-                 /\ LET m == CreateModel(Dev, envalt, Ev.user, Ev.url, "ANY")
+                 /\ LET m == CreateModel(Dev, sdk, envalt, Ev.user, Ev.url, "ANY")
                     IN m.threw /\ devUsed' = devUsed \cup {m.dev} /\ PrintT(<<"DEVAT", l, m.dev>>)
                  /\ dead' = TRUE /\ UNCHANGED pool
-           /\ UNCHANGED <<env, envalt, provs, errno>> /\ Keep
+           /\ UNCHANGED <<env, sdk, envalt, provs, errno>> /\ Keep
 
 TMerge == /\ Is("Merge") /\ ~dead
           /\ Idx(Ev.a) /\ Idx(Ev.b)
@@ -67,21 +77,21 @@ TMerge == /\ Is("Merge") /\ ~dead
           /\ Ev.obs = Merge(pool[Ev.a], pool[Ev.b])        \* (same thing, operationally)
           /\ Ev.obsA = pool[Ev.a] /\ Ev.obsB = pool[Ev.b]  \* operands unchanged
           /\ pool' = Append(pool, Ev.obs)
-          /\ UNCHANGED <<env, envalt, provs, errno, dead, devUsed>> /\ Keep
+          /\ UNCHANGED <<env, sdk, envalt, provs, errno, dead, devUsed>> /\ Keep
 
 TAudit == /\ Is("Audit") /\ ~dead
           /\ Ev.pool = pool                                \* nothing created earlier ever changed
-          /\ UNCHANGED <<env, envalt, pool, provs, errno, dead, devUsed>> /\ Keep
+          /\ UNCHANGED <<env, sdk, envalt, pool, provs, errno, dead, devUsed>> /\ Keep
 
 TMkProv == /\ Is("MkProv") /\ ~dead
            /\ Idx(Ev.res) /\ Ev.obs = pool[Ev.res]
            /\ provs' = Append(provs, [kind |-> Ev.kind, res |-> Ev.res])
-           /\ UNCHANGED <<env, envalt, pool, errno, dead, devUsed>> /\ Keep
+           /\ UNCHANGED <<env, sdk, envalt, pool, errno, dead, devUsed>> /\ Keep
 
 TEmit == /\ Is("Emit") /\ ~dead
          /\ Ev.p \in 1..Len(provs)
          /\ Ev.obs = pool[provs[Ev.p].res]                 \* the item references its provider's resource
-         /\ UNCHANGED <<env, envalt, pool, provs, errno, dead, devUsed>> /\ Keep
+         /\ UNCHANGED <<env, sdk, envalt, pool, provs, errno, dead, devUsed>> /\ Keep
 
 TRead == /\ Is("Read") /\ ~dead
          /\ Ev.r \in Readers /\ Ev.s \in AllStrs
@@ -97,11 +107,11 @@ TRead == /\ Is("Read") /\ ~dead
                              /\ PrintT(<<"DEVAT", l, m.dev>>)
                /\ errno' = ErrnoAfter(Ev.r, Ev.s, eff)
                /\ dead' = (Ev.val \in {"ub", "crash"})
-         /\ UNCHANGED <<env, envalt, pool, provs>> /\ Keep
+         /\ UNCHANGED <<env, sdk, envalt, pool, provs>> /\ Keep
 
 TEnd == /\ Is("End")
         /\ dead' = TRUE
-        /\ UNCHANGED <<env, envalt, pool, provs, errno, devUsed>> /\ Keep
+        /\ UNCHANGED <<env, sdk, envalt, pool, provs, errno, devUsed>> /\ Keep
 
 TNext == TCfg \/ TNew \/ TCreate \/ TMerge \/ TAudit \/ TMkProv \/ TEmit \/ TRead \/ TEnd
 TSpec == TInit /\ [][TNext]_tvars
